@@ -77,6 +77,7 @@ func RunFault(cfg Config, ops []Op, cont func(m *Model, failed *Op) []Op, fp *Fa
 	defer sys.Unmount()
 	d := sys.Disk
 	d.FaultReads = true
+	d.FaultFileReads = true
 	if fp != nil {
 		d.FaultAt, d.FaultKind, d.FaultPersistent, d.FaultAll = fp.At, fp.Kind, fp.Persistent, fp.UntilReturn
 	}
@@ -92,6 +93,22 @@ func RunFault(cfg Config, ops []Op, cont func(m *Model, failed *Op) []Op, fp *Fa
 		}()
 		vis := []*Model{NewModel()}
 		dur := []*Model{NewModel()}
+		// appends that returned an error since the last successful reopen: their bytes may sit in the tail
+		// file, and "applied in full or not at all after reopen" puts no order between such an append and the
+		// calls made after it, so a reopen may also show them applied on top of a later candidate
+		var failedAppends []Op
+		withLate := func(ms []*Model) []*Model {
+			out := append([]*Model{}, ms...)
+			for _, m := range ms {
+				for _, fa := range failedAppends {
+					n := m.Clone()
+					if !ApplyModel(n, fa) {
+						out = append(out, n)
+					}
+				}
+			}
+			return dedupeModels(out)
+		}
 		opened := false
 		tryOpen := func(what string) bool {
 			err := sys.Open()
@@ -113,7 +130,9 @@ func RunFault(cfg Config, ops []Op, cont func(m *Model, failed *Op) []Op, fp *Fa
 					hf = m.First
 				}
 			}
+			d.FaultPaused = true
 			o := sys.Observe(hf, hl)
+			d.FaultPaused = false
 			okLog, okStable := false, false
 			for _, m := range legal {
 				if len(CompareExact(o, m, "")) == 0 {
@@ -168,11 +187,15 @@ func RunFault(cfg Config, ops []Op, cont func(m *Model, failed *Op) []Op, fp *Fa
 				}
 				if op.K == "R" {
 					// a clean reopen shows a durable candidate; from here on that is what is visible
-					ndur = dur
-					nvis = dur
+					ndur = withLate(dur)
+					nvis = ndur
+					failedAppends = nil
 				}
 			} else {
 				out.Failed++
+				if op.K == "A" {
+					failedAppends = append(failedAppends, op)
+				}
 				nvis = vis
 				ndur = append([]*Model{}, dur...)
 				for _, m := range append(append([]*Model{}, dur...), vis...) {
@@ -223,6 +246,7 @@ func RunFault(cfg Config, ops []Op, cont func(m *Model, failed *Op) []Op, fp *Fa
 			return
 		}
 		vsched.Quiesce()
+		dur = withLate(dur)
 		o1 := check("after clean reopen", dur)
 		nViol := len(out.Viol)
 		// and it still works
@@ -250,7 +274,9 @@ func RunFault(cfg Config, ops []Op, cont func(m *Model, failed *Op) []Op, fp *Fa
 				return
 			}
 			vsched.Quiesce()
+			d.FaultPaused = true
 			o2 := sys.Observe(m1.First, m1.Last)
+			d.FaultPaused = false
 			if d := CompareExact(o2, m1, ""); len(d) > 0 {
 				bad("second clean reopen: WAL shows %s, the first reopen (plus one append) showed %s: %s", o2.Sig(), m1.Sig(), d[0])
 			}
